@@ -1,6 +1,7 @@
 #!/bin/bash
 # seedtest.sh <seed dir base> <prop id> [more checks...] : apply m1/m2 of the dir, run the checks, revert
 base=$1; shift
+for c in "$@"; do r=$(timeout 2400 /verif/check $c 2>&1 | grep -v KNOWN-FINDING | tail -1); case "$r" in *" ok "*) ;; *) echo "CLEAN TREE DOES NOT PASS $c: $r"; exit 1;; esac; done
 for m in m1 m2; do
   [ -f $base/$m/patch.diff ] || continue
   echo "== $base $m"
